@@ -91,6 +91,9 @@ pub fn check(a: &BTreeMap<String, String>) -> i32 {
     let seed = num("seed", 1);
     let jobs = num("jobs", 16).max(1);
     let (db, dd) = default_bases(&prop, thorough);
+    // `--div d`: a d-th of the tier's budget (sensitivity / quietness sweeps only; the registered checks never pass it)
+    let div = num("div", 1).max(1);
+    let (db, dd) = ((db / div).max(1), (dd / div).max(1));
     let bases = num("bases", db);
     let dev_bin = get("dev-bin", "");
     let dev_bases = if dev_bin.is_empty() { 0 } else { num("dev-bases", dd) };
